@@ -428,6 +428,9 @@ func init() {
 			if c.Scen == c19WaitPlan().Name {
 				return c19WaitPlan().Worker(c)
 			}
+			if c.Scen == c19EdgePlan().Name {
+				return c19EdgePlan().Worker(c)
+			}
 			return p.Worker(c)
 		}
 		if len(c.Args) == 2 && c.Args[0] == "--replay" {
@@ -450,10 +453,14 @@ func init() {
 		if sum.EngineErr != "" {
 			return EngineError("%s", sum.EngineErr)
 		}
+		c19EdgePlan().Master(c, sum)
+		if sum.EngineErr != "" {
+			return EngineError("%s", sum.EngineErr)
+		}
 		c.ReportKnown(sum.KnownHits)
 		res.Violations += sum.Violations
 		cov := p.Coverage(res, "deviation-bounded DFS over schedules of 2-3 goroutines using the real (instrumented) Go client over the in-memory network against a full node: choice points are network reads/writes/accepts, explicit yields between enter and leave, and every blocking; oracle on definitely-held intervals (acquire returned ... release called); non-trivial = at least two parties entered", c.Quick())
-		cov["enumerations"] = sum.Coverage("three complete enumerations through the real client against a full node: (1) rwlock-shared-object-histories: every legitimate history (no reader inside longer than two ticks of 1.7 s, read-lock expiry 5 s) of enter / leave (oldest, newest, middle) / tick / writer-try-lock events on ONE shared client.RWLock object (quick: length <= 8, <= 2 readers inside, writer last; thorough: length <= 10, <= 3 readers, writer anywhere), oracle: every call succeeds and the writer is admitted exactly when no reader is inside; (2) primitive-histories: every history of non-blocking calls (depth 4-5 quick, 6-7 thorough) on 2-3 objects of each primitive (Lock, RLock, PriorityLock, Semaphore 1-3, MaxConcurrentFlow 1-2, RWLock, Event in both modes) plus clock ticks, over two connections, one shared connection, through a follower port, and with a reconnect of one connection, each call compared with the textbook primitive; (3) event-wait-timeouts: 2-3 goroutines waiting on one event with every combination of timeouts, the event set at a chosen moment or never, both modes: Wait succeeds only after Set and times out only at its own deadline")
+		cov["enumerations"] = sum.Coverage("three complete enumerations through the real client against a full node: (1) rwlock-shared-object-histories: every legitimate history (no reader inside longer than two ticks of 1.7 s, read-lock expiry 5 s) of enter / leave (oldest, newest, middle) / tick / writer-try-lock events on ONE shared client.RWLock object (quick: length <= 8, <= 2 readers inside, writer last; thorough: length <= 10, <= 3 readers, writer anywhere), oracle: every call succeeds and the writer is admitted exactly when no reader is inside; (2) primitive-histories: every history of non-blocking calls (depth 4-5 quick, 6-7 thorough) on 2-3 objects of each primitive (Lock, RLock, PriorityLock, Semaphore 1-3, MaxConcurrentFlow 1-2, RWLock, Event in both modes) plus clock ticks, over two connections, one shared connection, through a follower port, and with a reconnect of one connection, each call compared with the textbook primitive; (3) event-wait-timeouts: 2-3 goroutines waiting on one event with every combination of timeouts, the event set at a chosen moment or never, both modes: Wait succeeds only after Set and times out only at its own deadline; (4) expiry-boundary: every primitive taken with expiry 2 s at every 100 ms phase of the server's second still refuses a contender 1.0 / 1.45 / 1.9 s later")
 		c.WriteEvidence("exploration", cov, []string{"coarse scheduling: handlers between network operations are atomic", "2-3 goroutines, n in {1,2}; 64-goroutine stress with random hold times is sampling and not claimed", "leader only in this check (the follower forwarding port is covered by C10)"}, res.Violations)
 		fmt.Printf("C19 %s: %d executions, %d distinct traces, %d violations\n", c.Tier, res.Total.Executions, len(res.Total.Traces), res.Violations)
 		if res.Violations > 0 {
